@@ -502,6 +502,18 @@ int main(int argc, char** argv)
   if (opts.count("lmmmon") && opts["lmmmon"] == "1")
     lmm_monitor_start();
   emit("S %ld %a begin mode=%s", SEQ++, 0.0, walk ? "walk" : "native");
+  // operations executed by maestro itself before the simulation starts (workflows built in main())
+  {
+    Ctx mc{nullptr, "maestro", 0, nullptr};
+    int mi = 0;
+    for (auto& pl : plan_lines)
+      if (pl.t[0] == "mop" && pl.t.size() >= 2) {
+        Op o;
+        o.kind = pl.t[1];
+        o.a.assign(pl.t.begin() + 2, pl.t.end());
+        do_op(mc, mi++, o);
+      }
+  }
   for (auto& id : spec_order)
     if (!specs[id].tmpl)
       spawn(id);
